@@ -183,10 +183,19 @@ def audit(theorems, imports):
 # ----------------------------------------------------------------------------------------------
 # driver
 # ----------------------------------------------------------------------------------------------
+def driver_line(line):
+    """tokens starting with '@' select the ROUTE by which the real API is reached (backend method instead of the facade, silent=True,
+    the SequencePermutants wrapper, ...); the model has one answer for all routes, so the driver never sees them"""
+    if "@" not in line:
+        return line
+    return " ".join(t for t in line.split(" ") if not t.startswith("@"))
+
+
 def run_driver(lines, mode):
     """lines: list of op lines. returns list of output lines (same length)"""
     if not lines:
         return []
+    lines = [driver_line(l) for l in lines]
     p = subprocess.run([DRV, mode], input="\n".join(lines) + "\n", stdout=subprocess.PIPE, stderr=subprocess.PIPE, text=True,
                        timeout=7200)
     if p.returncode != 0:
@@ -202,6 +211,7 @@ def run_driver(lines, mode):
 def run_driver_parallel(lines, mode, chunks=NCPU):
     if len(lines) < 64:
         return run_driver(lines, mode)
+    lines = [driver_line(l) for l in lines]
     n = len(lines)
     k = min(chunks, max(1, n // 16))
     # round-robin so heavy cases spread
@@ -515,11 +525,22 @@ def childq_cases(rng, n, queries, maxlen=40):
     for _ in range(n):
         s = gen.rand_seq(rng, rng.choice(["polyampholyte", "idp", "blocky"]), rng.randint(6, maxlen))
         how = rng.choice(["swap", "swap", "swapcharge", "shuffle", "backendshuffle", "permutant", "frozenshuffle", "frozenshuffle", "frozenshuffle",
-                          "kappashuffle", "deepcopy", "pickle", "copybackend", "copy"])
+                          "kappashuffle", "deepcopy", "pickle", "copybackend", "copy", "blockswap", "cluster", "swapdesc", "permshuffle"])
         q = rng.choice(queries)
         if how == "swap":
             i, j = rng.randrange(len(s)), rng.randrange(len(s))
             out.append("childq swap %s %d %d %s" % (s, i, j, q))
+        elif how == "swapdesc":
+            # the higher index first, two positions of DIFFERENT charge classes where the sequence has them
+            cls = lambda c: 1 if c in "KR" else -1 if c in "DE" else 0
+            pairs = [(i, j) for i in range(len(s)) for j in range(i) if cls(s[i]) != cls(s[j])]
+            i, j = rng.choice(pairs) if pairs else (len(s) - 1, 0)
+            out.append("childq swap %s %d %d %s" % (s, i, j, q))
+        elif how in ("blockswap", "cluster"):
+            how = "blockswap"       # (charge clustering has no iteration cap; it is exercised with a scripted generator in C17)
+            if len(s) < 8:
+                s = s + gen.rand_seq(rng, "polyampholyte", 8)
+            out.append("childq %s %s %s %s" % (how, s, rng.choice(["warm", "cold"]), q))
         elif how in ("deepcopy", "pickle", "copybackend", "copy"):
             pre = rng.sample(["kappa", "dmaxperm", "setphos", "linFCR"], rng.randint(0, 2))
             out.append("childq %s %s %s %s" % (how, s, ",".join(pre) or "-", q))
